@@ -56,6 +56,11 @@ def run_semantic(case, prefix, check_prov=True, check_comp=False, argv=()):
     P = semcheck.make_points(locator, case['pseed'], n_pts, case['box'])
     res = conv.convert(text, mr.argv_of(deck, argv))
     if not res.ok:
+        loc = locator.locate(P)
+        if res.exc_type == 'ValueError' and 'empty' in (res.exc_msg or '') \
+                and not ((loc.count == 1) & ~loc.dead & ~loc.undec).any():
+            from ..runner import skip
+            return None, skip('degenerate:nothing-to-convert', labels), None
         return None, violation('crash:%s' % res.crash_key(),
                                {'error': res.brief(), 'frames': res.frames,
                                 'deck': text, 'argv': mr.argv_of(deck, argv)},
